@@ -388,7 +388,7 @@ void World::server_handle(VFd &s, bool tcp, const std::string &wire, size_t stre
   } else if (beh == B_BADCOOKIE) { beh = B_ANSWER; }
   m.flags = (uint16_t)((m.flags & ~0xf) | (rcode & 0xf));
   if (with_opt) m.ar.push_back(optrr);
-  if (beh == B_TC) { m.flags |= F_TC; m.an.clear(); m.ns.clear(); std::vector<RR> keep; for (auto &r : m.ar) if (r.type == T_OPT) keep.push_back(r); m.ar = keep; resps[rid].markers.clear(); resps[rid].addrs.clear(); }
+  if (beh == B_TC) { m.flags |= F_TC; bool keep_ns = tc_keeps_negative && m.an.empty(); m.an.clear(); if (!keep_ns) m.ns.clear(); std::vector<RR> keep; for (auto &r : m.ar) if (r.type == T_OPT) keep.push_back(r); m.ar = keep; resps[rid].markers.clear(); resps[rid].addrs.clear(); }
   if (beh == B_WRONGID) { m.id = (uint16_t)(m.id + 1); resps[rid].defect |= DEF_WRONG_ID; }
 
   EncodeOpts eo;
